@@ -578,7 +578,7 @@ def run_unit(u, tier="quick", seed=0, query_timeout_ms=None, log=print):
                                 branch_timeout_ms=opts.get("branch_timeout_ms", 3000),
                                 max_int_fork=opts.get("max_int_fork", 16),
                                 wall_s=opts.get("explore_wall_s", 600),
-                                ctx_opts={k: opts[k] for k in ("floor_lemmas", "axioms_in_branch", "floor_fork") if k in opts})
+                                ctx_opts={k: opts[k] for k in ("floor_lemmas", "axioms_in_branch", "floor_fork", "axioms_in_trunc") if k in opts})
     out = {
         "unit": u.name, "property": u.prop, "tier": tier, "params": {k: repr(v) for k, v in u.params.items()},
         "paths": 0, "aborted": {}, "obligations": 0, "unsat": 0, "sat": 0, "unknown": 0, "trivial": 0,
